@@ -939,6 +939,13 @@ class Sim:
             # values must still be those of the mask (C08)
             attrs["area"] = 999.0
             attrs[tr.features.position_key if isinstance(tr.features.position_key, str) else "pos"] = [0.0] * len(self.fshape)
+        if inv == "bad_pixels":
+            # invalid request: a mask that cannot be painted - an index outside the array,
+            # or any mask on tracks that have no segmentation
+            if self.with_seg and pixels is not None:
+                pixels = (pixels[0], *[np.asarray(a) + s for a, s in zip(pixels[1:], self.fshape)])
+            elif not self.with_seg:
+                pixels = (np.array([t]), *[np.array([0]) for _ in self.fshape])
         force = bool(op.get("force"))
         # model: effective track, neighbours in it (scan), allowed removals
         eff_tid = tid
